@@ -21,6 +21,7 @@ vars == <<arr, x, list, res>>
 
 Absent == 0
 End == -1           \* the index "-"
+Neg == -2           \* the text "-1": no array index (RFC 6901: digits, or "-")
 
 InsertAt(s, i, v) == SubSeq(s, 1, i) \o <<v>> \o SubSeq(s, i + 1, Len(s))      \* i = 0 .. Len(s)
 DeleteAt(s, i)    == SubSeq(s, 1, i) \o SubSeq(s, i + 2, Len(s))               \* i = 0 .. Len(s) - 1
@@ -38,8 +39,8 @@ Apply1(s, o) ==
     CASE o.k = "add"      -> IF o.i = End THEN Ok(St(Append(s.arr, o.v), s.x))
                              ELSE IF o.i <= n THEN Ok(St(InsertAt(s.arr, o.i, o.v), s.x)) ELSE Fail
       [] o.k = "remove"   -> IF o.i < n THEN Ok(St(DeleteAt(s.arr, o.i), s.x)) ELSE Fail
-      [] o.k = "replace"  -> IF o.i < n THEN Ok(St(SetAt(s.arr, o.i, o.v), s.x)) ELSE Fail
-      [] o.k = "test"     -> IF o.i < n /\ s.arr[o.i + 1] = o.v THEN Ok(s) ELSE Fail
+      [] o.k = "replace"  -> IF o.i # Neg /\ o.i < n THEN Ok(St(SetAt(s.arr, o.i, o.v), s.x)) ELSE Fail
+      [] o.k = "test"     -> IF o.i # Neg /\ o.i < n /\ s.arr[o.i + 1] = o.v THEN Ok(s) ELSE Fail
       [] o.k = "copy_x"   -> IF s.x = Absent THEN Fail                               \* copy /x -> /arr/i
                              ELSE IF o.i = End THEN Ok(St(Append(s.arr, s.x), s.x))
                              ELSE IF o.i <= n THEN Ok(St(InsertAt(s.arr, o.i, s.x), s.x)) ELSE Fail
@@ -59,8 +60,8 @@ Idx == 0..MaxArr
 OpsAlphabet ==
     {Op("add", i, 0, v) : i \in Idx \cup {End}, v \in Vals}
     \cup {Op("remove", i, 0, 0) : i \in Idx}
-    \cup {Op("replace", i, 0, v) : i \in Idx, v \in Vals}
-    \cup {Op("test", i, 0, v) : i \in Idx, v \in Vals}
+    \cup {Op("replace", i, 0, v) : i \in Idx \cup {Neg}, v \in Vals}
+    \cup {Op("test", i, 0, v) : i \in Idx \cup {Neg}, v \in Vals}
     \cup {Op("copy_x", i, 0, 0) : i \in Idx \cup {End}}
     \cup {Op("move", i, j, 0) : i \in Idx, j \in Idx \cup {End}}
     \cup {Op("copy_to_x", i, 0, 0) : i \in Idx}
